@@ -47,6 +47,7 @@ type retained struct {
 }
 
 type planExec struct {
+	reqDigest  map[string]string // op id -> digest of the request body it carried
 	w          *World
 	plan       *Plan
 	results    map[string]*OpResult
@@ -275,11 +276,25 @@ func methodOf(body []byte) string {
 // finish records the result and evaluates the oracles bound to op.
 func (x *planExec) finish(op *Op, res *OpResult) {
 	x.results[op.ID] = res
+	if x.reqDigest == nil {
+		x.reqDigest = map[string]string{}
+	}
+	if op.Pad == 0 {
+		x.reqDigest[op.ID] = DigestB(op.plainBody())
+	} else {
+		x.reqDigest[op.ID] = fmt.Sprintf("%s+pad%d%s", DigestB(op.plainBody()), op.Pad, op.PadKind)
+	}
 	x.out.Stats.Requests++
 	x.out.Stats.Classes[res.Class()]++
 	prop := x.plan.Property
 	method := methodOf(op.BodyBytes())
 	if res.Blocked {
+		if prop == "C10" && op.Expect != nil && op.Expect.SameAs != "" {
+			if ref := x.results[op.Expect.SameAs]; ref != nil && !ref.Blocked && !ref.NoResponse {
+				x.violate("C10", "unanswered-next-to-others", op.ID, "C10|unanswered-next-to-others|"+method,
+					"the request is answered when it runs alone (%s: %s) but is never answered in the concurrent group: its handler made no step for %v (%s)", op.Expect.SameAs, ref.Class(), blockWatch, res.TransportNote)
+			}
+		}
 		x.out.OpDigests = append(x.out.OpDigests, op.ID+"=blocked")
 		x.violate("C20", "handler-blocked", op.ID, "C20|handler-blocked|"+method,
 			"the request was delivered but its handler neither finished nor made a single step for %v: it waits for something that never comes, the request is never answered (%s)", blockWatch, res.TransportNote)
@@ -492,10 +507,36 @@ func (x *planExec) checkSame(op *Op, res *OpResult, refID, method string) {
 			"same request, different verdict: %s answered %s, %s answered %s (%s)", refID, ref.Class(), op.ID, res.Class(), clip(errText(res), 200))
 		return
 	}
-	if res.Class() == "ok" && !bytes.Equal(ref.Body, res.Body) {
+	if res.Class() != "ok" {
+		return
+	}
+	if ref.Kind != res.Kind || x.reqDigest[refID] != x.reqDigest[op.ID] {
+		// one went through the library API and the other through the HTTP service, or the two
+		// requests are different requests the property declares equivalent (a disabled bias vs
+		// none, an omitted seed vs 0): what the service wraps around `result` and `biases`
+		// (further fields that may describe the request, key order) is its own business - the
+		// decision inside has to be the same
+		a, b := decisionPart(ref.Body), decisionPart(res.Body)
+		if a != b {
+			x.violate(prop, "bytes-differ", op.ID, prop+"|bytes-differ|"+method,
+				"same request, different decision through the library and over HTTP (%s vs %s): %s", refID, op.ID, firstDiff(a, b))
+		}
+		return
+	}
+	if !bytes.Equal(ref.Body, res.Body) {
 		x.violate(prop, "bytes-differ", op.ID, prop+"|bytes-differ|"+method,
 			"same request, different accepted response (%s vs %s): %s", refID, op.ID, firstDiff(string(ref.Body), string(res.Body)))
 	}
+}
+
+// decisionPart renders the `result` and `biases` members of an accepted response (raw bytes,
+// fixed order); the whole body when it is not an object.
+func decisionPart(body []byte) string {
+	var v map[string]json.RawMessage
+	if json.Unmarshal(body, &v) != nil {
+		return string(body)
+	}
+	return "result=" + string(bytes.TrimSpace(v["result"])) + " biases=" + string(bytes.TrimSpace(v["biases"]))
 }
 
 func (x *planExec) checkSameResult(op *Op, res *OpResult, refID, method string) {
